@@ -778,5 +778,29 @@ func compiledTypeClosure(r *an.Run) map[*types.TypeName]bool {
 			visit(n, 0)
 		}
 	}
+	// every Matcher / Replacer implementation and what hangs off it (a cache handed to each matcher,
+	// a shared table): interface-typed fields hide them from the walk above
+	mi, ri := r.P.NamedType(engine, "Matcher"), r.P.NamedType(engine, "Replacer")
+	if pk := r.P.ByP[enginePath]; pk != nil {
+		sc := pk.Types.Scope()
+		for _, nm := range sc.Names() {
+			tn, ok := sc.Lookup(nm).(*types.TypeName)
+			if !ok || tn.IsAlias() {
+				continue
+			}
+			if _, isIface := tn.Type().Underlying().(*types.Interface); isIface {
+				continue
+			}
+			for _, it := range []*types.Named{mi, ri} {
+				if it == nil {
+					continue
+				}
+				ifc := it.Underlying().(*types.Interface)
+				if types.Implements(tn.Type(), ifc) || types.Implements(types.NewPointer(tn.Type()), ifc) {
+					visit(tn.Type(), 0)
+				}
+			}
+		}
+	}
 	return out
 }
